@@ -400,6 +400,8 @@ class Machine:
                 r = 1
             if a is not p[op[1]]:
                 return [2]          # += must return the left object itself
+            if r == 1:
+                return [1]          # partial state after a rejected += is not compared (Run.step)
             return [r] + snap(p[op[1]])
         if t == "mul":
             try:
